@@ -64,19 +64,6 @@ var zeros = func() map[string]func() cat.Codec {
 	return m
 }()
 
-// decoderKinds lists every decoder kind of the harness in a fixed order.
-func decoderKinds() []string {
-	out := []string{"native-envelope", "protobuf-envelope"}
-	seen := map[string]bool{}
-	for _, v := range cat.Values() {
-		if k := "value:" + v.Type; !seen[k] {
-			seen[k] = true
-			out = append(out, k)
-		}
-	}
-	return out
-}
-
 // decodeOne feeds input to the real decoder of the kind and observes the result. A panic of the
 // decoder is recovered and attributed; a runtime fatal error (out of memory, stack overflow)
 // cannot be recovered and kills the process - that is what the supervising parent is for.
